@@ -11,5 +11,13 @@ CHECKS = {
             dict(pkg="server", harness="VfC05_isNewMaster", bounds="all 2^256 (candidate, existing) id pairs; no loops"),
         ],
         assumptions=[],
+        level_text="Bounded symbolic execution of the real election code: every 128-bit id pair / every state of the bounded session table is covered by SMT queries, not sampled.",
+        level_note="Trusted: go/ssa, gosym, z3; session table bounded (see evidence.bounds).",
     ),
 }
+
+NOT_APPLICABLE = {
+    "C19": "whole compliance-suite runs over in-memory gRPC against wrapped servers in every order: a whole-program execution through gRPC, testing and reflection; no bounded symbolic encoding within reach (DESIGN.md §8)",
+}
+
+FIX_COMMITS = []
